@@ -1,4 +1,6 @@
 import PprofVerif.Model.Trim
+import PprofVerif.Model.TrimTree
+import Driver.Ops.C04
 /- Driver operations for C05 (node selection of trimmed text reports). The graph figures under a
    kept set are served by Driver.Ops.C04 (`graph.spec` / `graph.model` with a kept list). -/
 namespace Driver.C05
@@ -25,5 +27,45 @@ def ops : List (String × (List String → String)) := [
       let r := trimText o es
       let c := cutoffOf ((es.map (·.flat)).sum) o.fracNum o.fracDen
       "ok " ++ Wr.render (Wr.int c ++ Wr.list (fun e => Wr.nat e.id) r))
+]
+end Driver.C05
+
+/-! ### `trim.tree`: the model of `Graph.TrimTree` on the call tree of a profile -/
+namespace Driver.C05
+open PV PV.GSpec PV.Graph PV.TrimTree Driver.C04
+
+/-- listed-node view of a table: the entries whose `sel` end is a listed node, in node order -/
+def viewEdges (nodes : List (List NodeInfo × NodeAcc)) (pick : List NodeInfo → ETable (List NodeInfo)) :
+    List (List NodeInfo × List NodeInfo × WD × Bool) :=
+  nodes.flatMap fun (n, _) => (pick n).map fun ((a, b), e) => (a, b, e.weight, e.residual)
+
+/-- `trim.tree <g.Nodes order: list of paths> <graph request with keptPaths>` →
+    `ok <nodes + In-view edges> ;; ok <nodes + Out-view edges>` | `panic …` | `err …` | `order-mismatch` -/
+def runTrimTree (ord : List (List NodeInfo)) (r : Req) : String :=
+  match r.samples with
+  | none => "invalid"
+  | some ss =>
+    let g := newTree ss
+    let shown := g.shownNodes.map Prod.fst
+    if !(ord.length == shown.length && ord.all (shown.contains ·) && ord.eraseDups.length == ord.length) then
+      "order-mismatch"
+    else
+      let nodes := ord.map fun n => (n, tget g.nodes n NodeAcc.zero)
+      -- EdgeMap.Sort is a parameter of the model; on trees every node has at most one in-edge, so any
+      -- permutation-returning sort gives the same result (Props.C05.trimTree_*): the identity is used
+      match trimNewTree id (keptFn r.keptPaths) g nodes with
+      | .panic m => "panic " ++ m
+      | .err m => "err " ++ m
+      | .ok st =>
+        let ns := st.nodes.map fun (n, a) => (n, a.flat, a.cum)
+        let total := computeTotalWD ss
+        renderTables { nodes := ns, edges := viewEdges st.nodes (inEdges st.ins), total := total } ++ " ;; " ++
+        renderTables { nodes := ns, edges := viewEdges st.nodes (outEdges st.outs), total := total }
+
+def opsTree : List (String × (List String → String)) := [
+  ("trim.tree", fun ts =>
+    match Rd.run (do let ord ← Rd.list (Rd.list rdNodeInfo); let r ← rdReq; pure (ord, r)) ts with
+    | none => "bad-op"
+    | some (ord, r) => runTrimTree ord r)
 ]
 end Driver.C05
